@@ -475,7 +475,17 @@ func (c *Ctx) checkExpiry() {
 			"a record can be popped without having been idle for the full timeout (comparison weakened, scaled, or taken on another record)", p.pathString(path)...)
 	}
 	if nPop == 0 {
-		c.undecided(rule, "removeExpired pops", p.Pos(re.Pos()), "no heap.Pop")
+		// removal that bypasses container/heap is reported by the heap-methods rule below; only a
+		// removeExpired that removes nothing at all has an unrecognised shape
+		direct := 0
+		for _, ci := range callsIn(re) {
+			if f := staticCallee(ci); f != nil && (f.Name() == "Pop" || f.Name() == "Swap") && f.Signature.Recv() != nil {
+				direct++
+			}
+		}
+		if direct == 0 {
+			c.undecided(rule, "removeExpired pops", p.Pos(re.Pos()), "no heap.Pop")
+		}
 	}
 	// Less
 	if less := p.Fn("common/turbotunnel", "(*clientMapInner).Less"); less != nil && len(less.Params) == 3 {
